@@ -18,6 +18,7 @@ SAN_FLAGS = ["-std=c++20", "-O1", "-g", "-fsanitize=address,undefined", "-fno-sa
              "-D_GLIBCXX_ASSERTIONS", "-DNDEBUG", f"-D{GUARD}", "-Wno-deprecated-declarations"]
 FAST_FLAGS = ["-std=c++20", "-O2", "-DNDEBUG", f"-D{GUARD}", "-Wno-deprecated-declarations"]
 TRUSTED_AXIOMS = {"propext", "Classical.choice", "Quot.sound"}
+IDLE_TIMEOUT = int(os.environ.get("VERIF_IDLE_TIMEOUT", "600"))      # seconds a driver may take to answer ONE request
 FORBIDDEN = re.compile(r"\bsorry\b|\badmit\b|^\s*axiom\s|native_decide|bv_decide|implemented_by|\bunsafe\s|maxHeartbeats\s+0\b")
 
 TRUSTED_BASE = [
@@ -37,8 +38,14 @@ class BuildError(Exception):
 
 
 def sh(cmd, cwd=None, timeout=None, env=None, stdin=None):
-    p = subprocess.run(cmd, cwd=cwd, timeout=timeout, env=env, input=stdin,
-                       stdout=subprocess.PIPE, stderr=subprocess.STDOUT, text=True, errors="replace")
+    try:
+        p = subprocess.run(cmd, cwd=cwd, timeout=timeout, env=env, input=stdin,
+                           stdout=subprocess.PIPE, stderr=subprocess.STDOUT, text=True, errors="replace")
+    except subprocess.TimeoutExpired as ex:
+        # a program of ours that runs the repository's code and does not come back (e.g. the table dumper calling a function that no longer
+        # terminates) is a result about the tree, not an internal error
+        out = ex.stdout if isinstance(ex.stdout, str) else (ex.stdout or b"").decode(errors="replace")
+        return -999, (out or "") + f"\nTIMEOUT: `{' '.join(map(str, cmd))[:200]}` did not finish within {timeout} s (killed)"
     return p.returncode, p.stdout
 
 
@@ -122,9 +129,10 @@ def regen():
     exe = build_cpp("dump_tables", ["dump_tables.cpp"], flags=["-std=c++20", "-O1", "-DNDEBUG", f"-D{GUARD}"], deps=["shim/blaze/Math.h"])
     gen = os.path.join(LEAN, "M17", "Gen")
     with Lock("lake"):
-        rc, out = sh([exe, gen], timeout=300)
+        rc, out = sh([exe, gen], timeout=120)
     if rc != 0:
-        raise BuildError("dump_tables failed on the current tree", out[-4000:])
+        raise BuildError("dump_tables failed on the current tree" if rc != -999 else
+                         "dump_tables (which calls the tree's constexpr table builders, callsign codec, CRC and filters) does not terminate on the current tree", out[-4000:])
     rc, out = sh([sys.executable, os.path.join(VERIF, "tools", "gen_taps.py"), REPO, gen], timeout=120)
     if rc != 0:
         raise BuildError("gen_taps.py failed on the current tree", out[-4000:])
@@ -279,14 +287,30 @@ class Ctx:
         e = san_env()
         if env:
             e.update(env)
-        with open(inp) as fin:
-            try:
-                p = subprocess.run([exe], stdin=fin, stdout=subprocess.PIPE, stderr=subprocess.PIPE, timeout=timeout, env=e)
-                so, se, rc = p.stdout, p.stderr, p.returncode
-            except subprocess.TimeoutExpired as ex:
-                # a driver that does not answer is a result (deadlock / lost wake-up), not an error of the checker
-                so, se, rc = ex.stdout or b"", (ex.stderr or b"") + f"\nTIMEOUT: no reply within {timeout} s (process killed)".encode(), -999
-        os.remove(inp)
+        # the drivers answer one line per request and flush: a request that is not answered within `idle` seconds (or the whole run within
+        # `timeout`) is a result (non-termination, deadlock, lost wake-up), not an error of the checker - and it must not cost an hour
+        idle = min(timeout, IDLE_TIMEOUT)
+        outp, errp = self.tmp("out.txt"), self.tmp("err.txt")
+        with open(inp) as fin, open(outp, "wb") as fo, open(errp, "wb") as fe:
+            p = subprocess.Popen([exe], stdin=fin, stdout=fo, stderr=fe, env=e)
+            t0 = last = time.time(); size = 0; rc = None; why = ""
+            while True:
+                try:
+                    rc = p.wait(timeout=0.05 if time.time() - t0 < 2 else 0.5)
+                    break
+                except subprocess.TimeoutExpired:
+                    pass
+                now = time.time()
+                sz = os.path.getsize(outp)
+                if sz != size:
+                    size, last = sz, now
+                if now - t0 > timeout or now - last > idle:
+                    why = f"\nTIMEOUT: no reply within {int(now - last) if now - last > idle else timeout} s (process killed)"
+                    p.kill(); p.wait(); rc = -999
+                    break
+        so = open(outp, "rb").read(); se = open(errp, "rb").read() + why.encode()
+        for f in (inp, outp, errp):
+            os.remove(f)
         out = so.decode(errors="replace").split("\n")
         if out and out[-1] == "":
             out.pop()
